@@ -131,6 +131,29 @@ pub fn q_grid_small(n: usize) -> Vec<f64> {
     v
 }
 
+/// Lengths for size sweeps: every n up to `dense`, then the neighbourhoods of typical block /
+/// unrolling / bitmask thresholds (2^k - 1, 2^k, 2^k + 1, 3*2^k and +-1, multiples of 100) up to `max`.
+pub fn sizes(dense: usize, max: usize) -> Vec<usize> {
+    let mut v: Vec<usize> = (0..=dense.min(max)).collect();
+    let mut p = 8usize;
+    while p <= max * 2 {
+        for c in [p - 1, p, p + 1, 3 * p / 2 - 1, 3 * p / 2, 3 * p / 2 + 1] {
+            if c <= max {
+                v.push(c);
+            }
+        }
+        p *= 2;
+    }
+    let mut h = 100;
+    while h <= max {
+        v.push(h);
+        h += if h < 1000 { 100 } else { 1000 };
+    }
+    v.sort();
+    v.dedup();
+    v
+}
+
 /// All permutations of 0..n.
 pub fn permutations(n: usize) -> Vec<Vec<usize>> {
     let mut out = Vec::new();
